@@ -64,8 +64,27 @@ func (s *memStore) StoreLogs(ls []*raft.Log) error {
 	return nil
 }
 func (s *memStore) DeleteRange(min, max uint64) error {
+	if s.last == 0 || min > max || max < s.first || min > s.last {
+		return nil
+	}
+	if min < s.first {
+		min = s.first
+	}
+	if max > s.last {
+		max = s.last
+	}
 	for i := min; i <= max; i++ {
 		delete(s.m, i)
+	}
+	switch {
+	case min == s.first && max == s.last:
+		s.first, s.last = 0, 0
+	case min == s.first:
+		s.first = max + 1
+	case max == s.last:
+		s.last = min - 1
+	default:
+		return errors.New("memstore: middle deletion")
 	}
 	return nil
 }
